@@ -394,6 +394,23 @@ V("f-rc2-empty-model", "fire", ["C15"], OPT, "                if model is None:\
 V("f-import-narrow-handler", "fire", ["C20"], PO, "                impact_data = json.loads(raw)\n            except ValueError:\n", "                impact_data = json.loads(raw)\n            except json.JSONDecodeError:\n")
 V("s-import-wider-handler", "silent", ["C20"], PO, "                impact_data = json.loads(raw)\n            except ValueError:\n", "                impact_data = json.loads(raw)\n            except Exception:\n")
 
+# ---------------------------------------------------------------------------------- round 3 / campaign 4
+V("s-crev-bits-msb", "silent", ["C19"], CRV, "        bits = [int(b) for b in world]\n",
+  "        world_int = int(world, 2)\n        n_vars = len(sig_index)\n        bits = [(world_int >> (n_vars - 1 - k)) & 1 for k in range(n_vars)]\n", note="bits decoded arithmetically, most significant first (= string order)")
+V("f-crev-bits-lsb", "fire", ["C19"], CRV, "        bits = [int(b) for b in world]\n",
+  "        world_int = int(world, 2)\n        n_vars = len(sig_index)\n        bits = [(world_int >> k) & 1 for k in range(n_vars)]\n")
+V("s-pent-constant-fold", "silent", ["C01", "C07", "C12"], PE, "        falsified_query = Conditional(Not(query.consequence), query.antecedence, None)\n",
+  "        consequence = query.consequence\n        if consequence.is_bool_constant():\n            negated = Bool(not consequence.constant_value())\n        else:\n            negated = Not(consequence)\n        falsified_query = Conditional(negated, query.antecedence, None)\n",
+  note="a constant consequence folded correctly", more=[(PE, "from pysmt.shortcuts import Not, Solver", "from pysmt.shortcuts import Bool, Not, Solver", 0)])
+V("f-single-row-lost", "fire", ["C13", "C02"], INF, "                result_dict[index] = (index, result, False, time)\n", "                index[index] = (index, result, False, time)\n")
+V("f-multi-return-other", "fire", ["C13"], INF, "            return result_dict\n", "            return mp_return_dict\n")
+V("f-multi-always-terminate", "fire", ["C13"], INF, "                if p.is_alive():\n                    p.terminate()\n                    p.join()  # Ensure the process has terminated\n                    mp_return_dict[i] = (\n                        i,\n                        False,\n                        True,\n                        0.0,\n                    )\n",
+  "                p.terminate()\n                p.join()  # Ensure the process has terminated\n                mp_return_dict[i] = (\n                    i,\n                    False,\n                    True,\n                    0.0,\n                )\n")
+V("f-marg-min-same", "fire", ["C18"], PO, "                    ranks[new_world] = min(curr_rank, world_rank)\n", "                    ranks[new_world] = min(world_rank, world_rank)\n")
+V("f-facts-max-values", "fire", ["C16"], PO, "            next_index = max(conditionals.keys(), default=0) + 1\n", "            next_index = max(conditionals.values(), default=0) + 1\n")
+V("f-lexz3-ext-same-optimizer", "fire", ["C07"], LZ, "                opt_v, opt_f, len(self.epistemic_state[\"partition\"]) - 2, query_z3\n", "                opt_f, opt_f, len(self.epistemic_state[\"partition\"]) - 2, query_z3\n")
+V("f-pent-key-min-plain", "fire", ["C01", "C12"], PE, "conditionals[min(conditionals, default=1) - 1] = falsified_query", "conditionals[min(conditionals, default=1)] = falsified_query")
+
 
 def main():
     hv = os.path.join(HERE, "harvested.json")
